@@ -93,6 +93,12 @@ class Line(BaseComponent):
 
         self.buffer = b''
 
+    @handler('disconnected')
+    def _on_disconnected(self, *args):
+        # Client mode: the unterminated tail belongs to the connection that
+        # has just ended, not to the next one
+        self.buffer = b''
+
     @handler('read')
     def _on_read(self, *args):
         if len(args) == 1:
